@@ -67,6 +67,21 @@ Definition parsable_cells (d : defn) (o : opts) (c : const) : list cell :=
 Definition is_parsable_trait_value (d : defn) (o : opts) (x : dyn) : bool :=
   existsb (fun c => existsb (fun cl => dyn_eqb x (cl_val cl)) (parsable_cells d o c)) (d_consts d).
 
+(* documented acceptance rules of the generator, over the definition:
+   trait names on the line of the lowest value; a line with trait cells has (or shares its value
+   with a line that has) one cell per trait; parsable trait values unique within the enum *)
+Definition ncols (d : defn) : nat := length (column_names d).
+Definition traits_in_domain (d : defn) : bool :=
+  match lowest_const (d_consts d) with
+  | None => false
+  | Some l =>
+      forallb (fun cl => negb (String.eqb (cl_var cl) "_") && negb (String.eqb (trim_underscore (cl_var cl)) "")
+                         && negb (String.eqb (trim_underscore (cl_var cl)) "_")) (c_cells l)
+      && forallb (fun c => Nat.leb (length (c_cells c)) (ncols d)) (d_consts d)
+      && (negb (Nat.eqb (ncols d) 0) || forallb (fun c => Nat.eqb (length (c_cells c)) 0) (d_consts d))
+      && str_nodupb (column_names d)
+  end.
+
 (* ------------------------------------------------------------------ C04 *)
 Record c04_case := {
   k_def : defn; k_opts : opts; k_outcome : nat;
@@ -118,7 +133,8 @@ Definition c04_model_eq (c : c04_case) : bool :=
   end.
 
 Definition judge_c04 (c : c04_case) : nat :=
-  if in_domain (k_def c) (k_opts c) then verdict (c04_spec_ok c) (c04_model_eq c) else 0.
+  if in_domain (k_def c) (k_opts c) && traits_in_domain (k_def c)
+  then verdict (c04_spec_ok c) (c04_model_eq c) else 0.
 
 (* non-trivial case: duplicates present, or the binary-search variant of IsValid was emitted *)
 Definition c04_nontrivial (c : c04_case) : bool :=
@@ -239,7 +255,7 @@ Definition c05_skipped (c : c05_case) : bool :=
   negb (o_yaml (k5_opts c)) && Nat.eqb (k5_outcome c) 2.
 
 Definition judge_c05 (c : c05_case) : nat :=
-  if in_domain (k5_def c) (k5_opts c) && negb (c05_skipped c)
+  if in_domain (k5_def c) (k5_opts c) && traits_in_domain (k5_def c) && negb (c05_skipped c)
   then verdict (c05_spec_ok c) (c05_model_eq c) else 0.
 
 (* non-trivial: some parsable trait family is in play or a document was rejected *)
@@ -255,20 +271,6 @@ Record c12_case := {
   k12_tparse : list (string * (Z * (dyn * res)));     (* column, e, accessor(e) as any, Parse<T>(it) *)
   k12_docs : list doc_obs }.
 
-(* documented acceptance rules of the generator, over the definition:
-   trait names on the line of the lowest value; a line with trait cells has (or shares its value
-   with a line that has) one cell per trait; parsable trait values unique within the enum *)
-Definition ncols (d : defn) : nat := length (column_names d).
-Definition traits_in_domain (d : defn) : bool :=
-  match lowest_const (d_consts d) with
-  | None => false
-  | Some l =>
-      forallb (fun cl => negb (String.eqb (cl_var cl) "_") && negb (String.eqb (trim_underscore (cl_var cl)) "")
-                         && negb (String.eqb (trim_underscore (cl_var cl)) "_")) (c_cells l)
-      && forallb (fun c => Nat.leb (length (c_cells c)) (ncols d)) (d_consts d)
-      && (negb (Nat.eqb (ncols d) 0) || forallb (fun c => Nat.eqb (length (c_cells c)) 0) (d_consts d))
-      && str_nodupb (column_names d)
-  end.
 Definition counts_ok (d : defn) : bool :=
   forallb (fun c => Nat.eqb (length (c_cells c)) 0
                     || existsb (fun c' => Z.eqb (c_val c') (c_val c) && Nat.eqb (length (c_cells c')) (ncols d))
